@@ -12,11 +12,15 @@ theorem decode_null_nullable (E : Ext) (env : Env) (strict : Bool) (t : PTy) (h 
     decode E env [] strict t .null = .ok .none := by
   unfold decode; simp [h]
 
+def isNullJ : JVal → Bool
+  | .null => true
+  | _ => false
+
 theorem decode_prim (E : Ext) (env : Env) (strict : Bool) {t : PTy} (hp : isPrimTy t = true) (j : JVal) :
     decode E env [] strict t j =
-      if t.flags.nullable && (match j with | .null => true | _ => false) then .ok .none
+      if t.flags.nullable && isNullJ j then .ok .none
       else makeStoneFriendly E env [] strict false t j := by
-  cases t <;> simp only [isPrimTy, Bool.false_eq_true] at hp <;> (unfold decode; rfl)
+  cases t <;> simp only [isPrimTy, Bool.false_eq_true] at hp <;> cases j <;> (unfold decode; rfl)
 
 theorem decode_list_arr (E : Ext) (env : Env) (strict : Bool) (fl : Flags) (item : PTy) (a b : Option Nat) (xs : List JVal) :
     decode E env [] strict (.list fl item a b) (.arr xs) = (decodeList E env [] strict item xs).map .list := by
